@@ -200,7 +200,9 @@ func run(c Case) (info, error) {
 		return inf, fmt.Errorf("tree changed after the full enumeration:\n before %s\n after  %s", before, got)
 	}
 	if c.CLI && !strings.ContainsAny(before, "\r\n") { // the command reads its input line by line
-		r := cli.Run(cli.Scratch(), before+"\n", "nni")
+		// the command handles a stream of trees: the same tree twice must give the list twice
+		r := cli.Run(cli.Scratch(), before+"\n"+before+"\n", "nni")
+		texts = append(append([]string{}, texts...), texts...)
 		if r.Code != 0 || r.TimedOut {
 			return inf, fmt.Errorf("gotree nni exited with %d: %s", r.Code, r.Stderr)
 		}
